@@ -282,7 +282,10 @@ def _update(
   meta = jax.tree_util.tree_map_with_path(
       lambda path, x: _blocks_metadata(options, x.shape, str(path)), updates
   )
-  blocks = state.blocks
+  # The lax.cond branches below close over `blocks`; make sure the leaves are
+  # jax arrays (not NumPy arrays from a restored checkpoint, which would be
+  # embedded as compile-time constants and change the rounding of the update).
+  blocks = jax.tree.map(jnp.asarray, state.blocks)
   blockified_updates = jax.tree.map(_blockify, updates, meta)
   is_block = lambda x: isinstance(x, _AxesBlocks)
 
